@@ -7,7 +7,7 @@ from concurrent.futures import ThreadPoolExecutor
 import m4
 from vlib import *
 
-IMPORTS = "From KP Require Import model.Base model.ServiceMap model.Seq corr.M4corr corr.C04cmd corr.C05cmd.\nLocal Open Scope N_scope.\n"
+IMPORTS = "From KP Require Import model.Base model.ServiceMap model.Seq corr.M4corr corr.C04cmd corr.C05cmd corr.C11step.\nLocal Open Scope N_scope.\n"
 
 
 def go_run(work, hists, mats):
@@ -61,7 +61,7 @@ def run_property(prop, tier, seed, prop_files, coq_targets, profile, monitor, n_
     res = Result(prop, tier, seed)
     work = Work(prop)
     try:
-        ok, blog = coq_build(coq_targets + ["corr/M4corr.vo", "corr/C04cmd.vo", "corr/C05cmd.vo"])
+        ok, blog = coq_build(coq_targets + ["corr/M4corr.vo", "corr/C04cmd.vo", "corr/C05cmd.vo", "corr/C11step.vo"])
         proofs_ok, pa = True, ""
         ob = {"obligations": 0, "discharged": 0, "theorems": []}
         for pf in prop_files:
